@@ -199,16 +199,16 @@ pub open spec fn def_post(var: AST, ty: Option<Name>, expr: Option<Box<AST>>, b:
 //@@ REPLACE
 //@@< let mut names = vec![];
 //@@> let names: Vec<Name> = Vec::new(); /* only used inside the havocked loop */
-//@@ REPLACE count=2 pin=81734cb5ad33
+//@@ REPLACE count=2 pin=e62f866ad74a
 //@@< for ($fname, ($fmut, $name)) in match_name(&identifier, ty, var.pos)? { $$ }
 //@@> verif_havoc_loop(constr, &mut env)?;
-//@@ REPLACE pin=6d3f2b2afcb6
+//@@ REPLACE pin=5e9dc935e7c4
 //@@< for ($fm, $nm) in &fields { $$ }
 //@@> { verif_havoc_loop(constr, &mut env)?; temp_names = verif_havoc_names(fields.len()); }
-//@@ REPLACE pin=acb125c5235c
+//@@ REPLACE pin=521214f978e3
 //@@< for ($i, ($e, $t)) in enumerate(elements.iter().zip(&temp_names)) { $$ }
 //@@> verif_havoc_loop(constr, &mut env)?;
-//@@ REPLACE pin=125e0fe46766
+//@@ REPLACE pin=6867c535d3bb
 //@@< for ($fm2, $fn2) in identifier.fields(var.pos)? { $$ }
 //@@> { identifier.fields(var.pos)?; verif_havoc_loop(constr, &mut env)?; }
     ensures
@@ -237,7 +237,7 @@ pub open spec fn stmt_post(ast: AST, env: Environment, r: Constrained, b0: Const
 pub fn verif_havoc_raise_arm(env: &Environment) -> (r: Constrained) ensures r is Err ==> r->Err_0@.len() >= 1 { unimplemented!() }
 
 //@@ FN src/check/constrain/generate/statement.rs | free | gen_stmt | props=C06,C05,C03
-//@@ REPLACE pin=579bb0f5c96c
+//@@ REPLACE pin=d035525e9fdc
 //@@< Node::Raise { error } => match &error.node { $$ },
 //@@> Node::Raise { error } => verif_havoc_raise_arm(env),
     ensures
@@ -274,10 +274,10 @@ pub open spec fn fundef_constr_post(ast: AST, b: ConstrBuilder) -> bool {
 }
 
 //@@ FN src/check/constrain/generate/definition.rs | free | gen_def | props=C06,C05,C03
-//@@ REPLACE pin=bdb13283f489
+//@@ REPLACE pin=833d3df8df40
 //@@< let (class, non_nullable_class_vars) = match &id.node { $$ }; $$ let body_env = body_env.raises_caught(&raises);
 //@@> let (class, body_env) = verif_havoc_fundef_preamble(env, constr)?;
-//@@ REPLACE pin=17e3c14c08bf
+//@@ REPLACE pin=83735b9c883f
 //@@< if let Some(class) = class { $$ }
 //@@> if let Some(class) = class { verif_havoc_unassigned_check(&class, &body_env)?; }
     ensures
